@@ -86,7 +86,9 @@ pub fn replay_anim_line(tally: &mut Tally, lineno: usize, line: &Value, scales: 
                 let (sd, pa) = a.verif_snapshot();
                 let exp_p = ob["paused"].as_array().unwrap();
                 let exp_pa = if exp_p.is_empty() { None } else { Some((st(exp_p[0].as_i64().unwrap()), dur(exp_p[1].as_i64().unwrap(), s))) };
-                if sd != dur(ob["ticks"].as_i64().unwrap(), s) || pa != exp_pa {
+                // the clock of a state WITHOUT timeline has no observable meaning: not compared
+                let animated_now = !line["tls"][(ob["st"].as_i64().unwrap() - 1) as usize].as_array().unwrap().is_empty();
+                if (animated_now && sd != dur(ob["ticks"].as_i64().unwrap(), s)) || pa != exp_pa {
                     t.miss(ctx("snap", json!({"got": [format!("{:?}", sd), format!("{:?}", pa)], "expected_ticks": ob["ticks"], "expected_paused": ob["paused"]})));
                 }
                 // C06: the twin saw the same total time per state in a different partition
